@@ -210,8 +210,14 @@ def decrypt_error_is_decrypt(ctx, cfg, fn):
     from .common import ret_err_sites
     F = ctx.facts[cfg]
     n = 0
+    # closures the function itself creates (after helper inlining these may be declared under another parent)
+    made = set()
+    for blk in fn.blocks:
+        for st in blk["stmts"]:
+            if st["k"] == "assign" and st["rv"]["k"] == "aggregate" and st["rv"].get("agg") == "closure":
+                made.add(st["rv"].get("def"))
     for p, b in list(F.bodies.items()):
-        if not ("mir" in b and (p == fn.path or (b.get("kind") == "Closure" and b.get("parent") == fn.path))):
+        if not ("mir" in b and (p == fn.path or (b.get("kind") == "Closure" and (b.get("parent") == fn.path or p in made)))):
             continue
         g = F.fn(p)
         for blk in g.blocks:
